@@ -101,6 +101,13 @@ def _bfsw_signature(net, ref, alt, kw):
     dva = np.abs((a.va_degree.values - b.va_degree.values + 180) % 360 - 180)
     dva = dva[~np.isnan(dva)]
     if dvm < 1e-6 and dva.max() > 1 and np.all(np.abs(dva / 30. - np.round(dva / 30.)) < 1e-4):
+        # only the reported bus angles are off: every branch flow must still agree
+        for el, cols in (("line", ["p_from_mw", "q_from_mvar", "p_to_mw", "q_to_mvar"]), ("trafo", ["p_hv_mw", "q_hv_mvar", "p_lv_mw", "q_lv_mvar"]),
+                         ("ext_grid", ["p_mw", "q_mvar"])):
+            if len(ref[el]):
+                x, y = ref["res_" + el][cols].values.astype(float), alt["res_" + el][cols].values.astype(float)
+                if (~((np.abs(x - y) <= 2e-4 * (1 + np.abs(x))) | (np.isnan(x) & np.isnan(y)))).any():
+                    return None
         return "bfsw_bus_angle_off_by_vector_group_shift"
     t = net.trafo[net.trafo.in_service.values] if len(net.trafo) else net.trafo
     if len(t):
@@ -134,6 +141,10 @@ def run_case(seed, tier, case_no):
         # plain radial feeder nets: the core domain of the bfsw clause
         over.update(gen=0.0, xward=0.0, trafo3w=0.0, open_sw=0.0, oos=0.0, ptap=0.0, z_sw=0.0, imp=0.0, tabular=0.0)
     net = netgen.rnd_net(seed, profile, over)
+    if g.B(0.5):
+        # bus numbering that does not follow the feed direction
+        from .c05 import t_relabel_buses
+        t_relabel_buses(net, g)
     base = {"tolerance_mva": 1e-9}
     if g.B(0.5):
         base["calculate_voltage_angles"] = g.B(0.7)
